@@ -127,6 +127,16 @@ def hm_keys(r, kind, n, M, S):
     elif kind == "u64":
         cols = [r.randrange(64) for _ in range(2)]
         tries = 0
+        if r.random() < 0.35:
+            # pairs of distinct keys with the SAME full 32-bit hash (the two 32-bit windows of the xor swapped): equal hash must
+            # not be taken for equal key
+            while len(keys) < n - 1:
+                a, b = r.randrange(1 << 32), r.randrange(1 << 32)
+                b = (b & ~1) | (a >> 31)
+                a = (a & ~1) | (b >> 31)
+                x, y = a | ((b >> 1) << 32), b | ((a >> 1) << 32)
+                if x != y and hash64(x) == hash64(y) and x not in seen and y not in seen:
+                    seen.update((x, y)), keys.extend((x, y))
         while len(keys) < n:
             k = r.choice([r.randrange(1 << 64), r.randrange(1 << 33), r.randrange(1 << 31, 1 << 34), (1 << 64) - 1 - r.randrange(4)])
             tries += 1
